@@ -826,9 +826,15 @@ snarf_dtlst(const char *eof, const char *vp, const char *const ep)
 			;
 		} else if (!strncmp(eof, tzid, strlenof(tzid))) {
 			/* yep, got him */
-			const char *const zn = eof + strlenof(tzid);
-			const size_t nzn = neo - zn;
+			const char *zn = eof + strlenof(tzid);
+			size_t nzn = neo - zn;
 
+			if (nzn >= 2U &&
+			    zn[0U] == '"' && zn[nzn - 1U] == '"') {
+				/* a quoted parameter value */
+				zn++;
+				nzn -= 2U;
+			}
 			z = echs_tzob(zn, nzn);
 		} else if (!strncmp(eof, scal, strlenof(scal))) {
 			/* very nice */
